@@ -196,6 +196,30 @@ def handleSt (st : DrvState) (op : String) : P (DrvState × String) :=
   | "oe500src" => do
       let rc ← pText; let w6 ← pText; let w7 ← pText; let w8 ← pText; pEnd
       pure (st, "ok " ++ outJ (oe500Src st.chips rc w6 w7 w8))
+  | "cli" => do
+      let mode ← pWord
+      let cfg ← pSelCfg; let hex ← pBool; let rev ← pBool; let ext ← pOpt pText
+      let arg ← pText; let flag ← pBool
+      let d ← pList (do let name ← pText; let data ← pBytes; pure ({ name, data } : FileEntry))
+      pEnd
+      let o : CliOpts := { cfg, hex, rev, ext }
+      let outC (c : CliOut) : String := outText c.stdout ++ " " ++ outNum c.stderrLines ++ " " ++ outNum c.exit
+      let names (l : Dir) : String := outList outText (l.map (·.name))
+      match mode with
+      | "list" => pure (st, "ok " ++ outC (listMode st.env o d))
+      | "count" => pure (st, "ok " ++ outC (countMode st.env o d))
+      | "all" => pure (st, "ok " ++ outC (allMode st.env o d))
+      | "plid" => pure (st, "ok " ++ outC (plidMode st.env o arg d))
+      | "src" => pure (st, "ok " ++ outC (srcMode st.env o (some arg) none d))
+      | "srcex" => pure (st, "ok " ++ outC (srcMode st.env o none (some arg) d))
+      | "id" => pure (st, "ok " ++ outC (idMode st.env o arg d))
+      | "bmcid" => pure (st, "ok " ++ outC (bmcIdMode st.env o arg d))
+      | "delete" => let (c, d') := deleteMode arg d; pure (st, "ok " ++ outC c ++ " " ++ names d')
+      | "deleteall" => let (c, d') := deleteAllMode d; pure (st, "ok " ++ outC c ++ " " ++ names d')
+      | "json" =>
+        let e := jsonMode st.env o flag d
+        pure (st, "ok " ++ outList (fun p => outText p.1 ++ " " ++ outText p.2) e.created ++ " " ++ outList outText e.removed ++ " " ++ outNum e.stderrLines)
+      | _ => failure
   | "pelraw" => do
       let c ← pSelCfg; let b ← pBytes; pEnd
       pure (st, "ok " ++ outOutcome (parsePEL st.env c b))
